@@ -88,10 +88,25 @@ def run_scenario(sc):
     # sequential reference, in process
     with open(P.Conf.get_path(P.InputFile.GRAMMAR, "Hexagon")) as f:
         grammar = "".join(f.readlines())
-    seq = []
+    # The reference does not go through parse_single: every behaviour is parsed by a parser object built for
+    # it alone, so nothing a worker (or this process) may keep between parses -- a parser, a table of trees --
+    # can leak into it.  parse_single in process is compared with it as well (history: the order of sc["names"]).
+    seq, seq_ps = [], []
     for n in sc["names"]:
-        r = ORIG_PARSE_SINGLE(P.InsnParsingBundle(grammar, n, beh[n]))
-        seq.append(summary(r[n]))
+        trees, exc = [], None
+        try:
+            for b in beh[n]:
+                trees.append(P.Lark(grammar, start="fbody", parser="earley").parse(b))
+        except Exception as e:
+            trees, exc = [], P.ParserException(e)
+        seq.append(summary(P.ParsedInsn(n, trees, beh[n], exc)))
+        if len(sc["names"]) <= 12:
+            r = ORIG_PARSE_SINGLE(P.InsnParsingBundle(grammar, n, beh[n]))
+            seq_ps.append(summary(r[n]) if list(r.keys()) == [n] else ["badkeys", 0, str(list(r.keys()))])
+    if err is None and seq_ps and seq_ps != seq:
+        bad = [i for i in range(len(seq)) if seq_ps[i] != seq[i]]
+        err = "in-process parse_single differs from a parser built for the behaviour alone at tasks %s: %s vs %s" % (
+            [b + 1 for b in bad][:5], seq_ps[bad[0]], seq[bad[0]])
     procs = []
     for fn in sorted(os.listdir(d)):
         evs = [json.loads(l) for l in open(os.path.join(d, fn))]
